@@ -407,6 +407,105 @@ static size_t safec_ftoa_long(out_fct_type out, const char *funcname,
 #endif // PRINTF_SUPPORT_LONG_DOUBLE
 #endif // PRINTF_SUPPORT_EXPONENTIAL
 
+// The conversions handed to the C library (long double, and %a). The directive
+// is rebuilt from the parsed fields, so that a '*' width or precision is
+// already resolved, and the text is measured first, so that it is never cut.
+#ifdef PRINTF_SUPPORT_LONG_DOUBLE
+typedef long double safec_fp_t;
+#else
+typedef double safec_fp_t;
+#endif
+static size_t safec_fp_libc(out_fct_type out, const char *funcname,
+                            char *buffer, size_t idx, size_t maxlen,
+                            safec_fp_t value, bool is_long, unsigned int prec,
+                            unsigned int width, unsigned int flags,
+                            const char *format) {
+    char fmt[16];
+    char sbuf[64];
+    char *buf = sbuf;
+    char *p = fmt;
+    size_t size = sizeof(sbuf);
+    char conv = 'f';
+    int n, rc, pass;
+
+    while (*format) // the conversion specifier is the last char
+        conv = *format++;
+    if (width > 2147483614 || prec > 2147483614) {
+        char msg[80];
+        snprintf(msg, sizeof msg, "%s: width exceeds max", funcname);
+        invoke_safe_str_constraint_handler(msg, NULL, ESLEMAX);
+        return -ESLEMAX;
+    }
+    *p++ = '%';
+    if (flags & FLAGS_LEFT)
+        *p++ = '-';
+    if (flags & FLAGS_PLUS)
+        *p++ = '+';
+    if (flags & FLAGS_SPACE)
+        *p++ = ' ';
+    if (flags & FLAGS_HASH)
+        *p++ = '#';
+    if (flags & FLAGS_ZEROPAD)
+        *p++ = '0';
+    *p++ = '*';
+    if (flags & FLAGS_PRECISION) {
+        *p++ = '.';
+        *p++ = '*';
+    }
+#ifdef PRINTF_SUPPORT_LONG_DOUBLE
+    if (is_long)
+        *p++ = 'L';
+#endif
+    *p++ = conv;
+    *p = '\0';
+
+    for (pass = 0; pass < 2; pass++) {
+#ifdef PRINTF_SUPPORT_LONG_DOUBLE
+        if (is_long) {
+            if (flags & FLAGS_PRECISION)
+                n = snprintf(buf, size, fmt, (int)width, (int)prec, value);
+            else
+                n = snprintf(buf, size, fmt, (int)width, value);
+        } else
+#endif
+        {
+            if (flags & FLAGS_PRECISION)
+                n = snprintf(buf, size, fmt, (int)width, (int)prec,
+                             (double)value);
+            else
+                n = snprintf(buf, size, fmt, (int)width, (double)value);
+        }
+        if (n < 0) {
+            if (buf != sbuf)
+                free(buf);
+            return -1;
+        }
+        if ((size_t)n < size)
+            break;
+        // does not fit into the stack buffer
+        size = (size_t)n + 1;
+        buf = (char *)malloc(size);
+        if (!buf) {
+            char msg[80];
+            snprintf(msg, sizeof msg, "%s: malloc failed", funcname);
+            invoke_safe_str_constraint_handler(msg, NULL, ENOMEM);
+            return -(ENOMEM);
+        }
+    }
+    p = buf;
+    while (*p != 0) {
+        rc = out(*(p++), buffer, idx++, maxlen);
+        if (unlikely(rc < 0)) {
+            if (buf != sbuf)
+                free(buf);
+            return rc;
+        }
+    }
+    if (buf != sbuf)
+        free(buf);
+    return idx;
+}
+
 // internal ftoa for fixed decimal floating point
 static size_t safec_ftoa(out_fct_type out, const char *funcname, char *buffer,
                          size_t idx, size_t maxlen, double value,
@@ -641,36 +740,12 @@ static size_t safec_ftoa_long(out_fct_type out, const char *funcname,
                               long double value, unsigned int prec,
                               unsigned int width, unsigned int flags,
                               const char *format) {
-    char buf[64];
-    char *p = (char *)buf;
-    int rc = 0;
-
     if (value != value)
         return safec_out_rev(out, buffer, idx, maxlen,
                              (flags & FLAGS_UPPERCASE) ? "NAN" : "nan", 3,
                              width, flags);
-    if (_ISINFL(value)) {
-        if (value < 0)
-            return safec_out_rev(out, buffer, idx, maxlen,
-                                 (flags & FLAGS_UPPERCASE) ? "FNI-" : "fni-", 4,
-                                 width, flags);
-        else
-            return safec_out_rev(out, buffer, idx, maxlen,
-                                 (flags & FLAGS_PLUS)
-                                     ? (flags & FLAGS_UPPERCASE) ? "FNI+"
-                                                                 : "fni+"
-                                 : (flags & FLAGS_UPPERCASE) ? "FNI"
-                                                             : "fni",
-                                 (flags & FLAGS_PLUS) ? 4 : 3, width, flags);
-    }
-    snprintf(buf, 64, format, value);
-    buf[63] = '\0';
-    while (*p != 0) {
-        rc = out(*(p++), buffer, idx++, maxlen);
-        if (unlikely(rc < 0))
-            return rc;
-    }
-    return idx;
+    return safec_fp_libc(out, funcname, buffer, idx, maxlen, value, true, prec,
+                         width, flags, format);
 }
 
 // internal etoa for fixed decimal long double
@@ -701,36 +776,12 @@ static inline size_t safec_atoa(out_fct_type out, const char *funcname,
                                 double value, unsigned int prec,
                                 unsigned int width, unsigned int flags,
                                 const char *format) {
-    char buf[64];
-    char *p = (char *)buf;
-    int rc = 0;
-
     if (value != value)
         return safec_out_rev(out, buffer, idx, maxlen,
                              (flags & FLAGS_UPPERCASE) ? "NAN" : "nan", 3,
                              width, flags);
-    if (isinf(value)) {
-        if (value < 0)
-            return safec_out_rev(out, buffer, idx, maxlen,
-                                 (flags & FLAGS_UPPERCASE) ? "FNI-" : "fni-", 4,
-                                 width, flags);
-        else
-            return safec_out_rev(out, buffer, idx, maxlen,
-                                 (flags & FLAGS_PLUS)
-                                     ? (flags & FLAGS_UPPERCASE) ? "FNI+"
-                                                                 : "fni+"
-                                 : (flags & FLAGS_UPPERCASE) ? "FNI"
-                                                             : "fni",
-                                 (flags & FLAGS_PLUS) ? 4 : 3, width, flags);
-    }
-    snprintf(buf, 64, format, value);
-    buf[63] = '\0';
-    while (*p != 0) {
-        rc = out(*(p++), buffer, idx++, maxlen);
-        if (unlikely(rc < 0))
-            return rc;
-    }
-    return idx;
+    return safec_fp_libc(out, funcname, buffer, idx, maxlen,
+                         (safec_fp_t)value, false, prec, width, flags, format);
 }
 
 // internal ftoa variant for exponential floating-point type, contributed by
